@@ -124,6 +124,15 @@ def motion_notify_rule(ctx, cg=None):
 
 
 def run(ctx):
+    from ..shared import flag_pair_rule as _flag_pair_rule
+
+    _flag_pair_rule(ctx, "R14.16", scope=lambda f, _s=("EasyFEA.FEM", "EasyFEA.Simulations", "EasyFEA.Models"): f.module.name.startswith(_s), min_instances=1)
+    from ..shared import group_loop_leak_rule as _group_loop_leak_rule
+
+    _group_loop_leak_rule(ctx, "R14.15", scope=lambda f, _s=("EasyFEA.Simulations",): f.module.name.startswith(_s), min_instances=8)
+    from ..shared import group_loop_rule as _group_loop_rule
+
+    _group_loop_rule(ctx, "R14.14", scope=lambda f, _s=("EasyFEA.FEM._mesh", "EasyFEA.Simulations"): f.module.name.startswith(_s), min_instances=10)
     from ..shared import copy_out_rule as _copy_out_rule
 
     _copy_out_rule(ctx, "R14.13", ["Get_K_C_M_F"], "EasyFEA.Simulations._simu._Simu")
